@@ -332,6 +332,146 @@ func extractMuxFacts(repo, root string) error {
 		f.add("discardRewindsToWire", false, "(*messageSetReader).discard not found")
 	}
 
+	// ---- message_reader.go touches the wire only through the size-threading discipline (Model/WireProg.lean)
+	if mr != nil {
+		prims := map[string]bool{"readInt8": true, "readInt16": true, "readInt32": true, "readInt64": true, "readVarInt": true,
+			"readBytesWith": true, "readNewBytes": true, "readNewString": true, "discardN": true, "discardBytes": true}
+		threaded, limited, limitedOK, callbacks := 0, 0, 0, 0
+		var others, badRemain []string
+		for _, d := range mr.Decls {
+			fd, ok := d.(*ast.FuncDecl)
+			if !ok || fd.Body == nil || recvName(fd) != "messageSetReader" || fd.Recv.List[0].Names == nil {
+				continue
+			}
+			rv := fd.Recv.List[0].Names[0].Name
+			wire, counter := rv+".reader", rv+".remain"
+			fparams := map[string]bool{}
+			for _, pn := range paramNames(fd.Type) {
+				fparams[pn] = true
+			}
+			good := map[ast.Node]bool{}   // occurrences of r.reader accounted for
+			goodAs := map[ast.Node]bool{} // assignments to r.remain accounted for
+			ast.Inspect(fd.Body, func(n ast.Node) bool {
+				switch x := n.(type) {
+				case *ast.AssignStmt:
+					// r.remain, err = prim(r.reader, r.remain, …)   /   res, r.remain, err = prim(r.reader, r.remain, …)
+					if len(x.Rhs) == 1 {
+						if c, isC := x.Rhs[0].(*ast.CallExpr); isC {
+							// a read callback handed in by batch.go (a parameter of function type): r.remain, err = cb(r.reader, r.remain, n)
+							if id, isID := c.Fun.(*ast.Ident); isID && fparams[id.Name] && len(c.Args) == 3 &&
+								src(f.fset, c.Args[0]) == wire && src(f.fset, c.Args[1]) == counter && len(x.Lhs) >= 1 && src(f.fset, x.Lhs[0]) == counter {
+								callbacks++
+								good[c.Args[0]] = true
+								goodAs[x] = true
+							}
+							if id, isID := c.Fun.(*ast.Ident); isID && prims[id.Name] && len(c.Args) >= 2 &&
+								src(f.fset, c.Args[0]) == wire && src(f.fset, c.Args[1]) == counter {
+								lhsHas := false
+								for _, l := range x.Lhs {
+									if src(f.fset, l) == counter {
+										lhsHas = true
+									}
+								}
+								if lhsHas {
+									threaded++
+									good[c.Args[0]] = true
+									goodAs[x] = true
+								}
+							}
+						}
+					}
+					// r.remain -= n - int(limitReader.N)
+					if x.Tok == token.SUB_ASSIGN && len(x.Lhs) == 1 && src(f.fset, x.Lhs[0]) == counter {
+						if b, isB := x.Rhs[0].(*ast.BinaryExpr); isB && b.Op == token.SUB && strings.HasSuffix(strings.TrimSuffix(src(f.fset, b.Y), ")"), ".N") {
+							limitedOK++
+							goodAs[x] = true
+						}
+					}
+					// inside a readBytesWith callback: remain = sz - (n - int(limitReader.N))
+					if x.Tok == token.ASSIGN && len(x.Lhs) == 1 && len(x.Rhs) == 1 {
+						if b, isB := x.Rhs[0].(*ast.BinaryExpr); isB && b.Op == token.SUB && strings.Contains(src(f.fset, b.Y), ".N)") && strings.Contains(src(f.fset, b.Y), " - ") {
+							limitedOK++
+						}
+					}
+				case *ast.CompositeLit:
+					if strings.HasSuffix(src(f.fset, x.Type), "LimitedReader") {
+						for _, el := range x.Elts {
+							if kv, isKV := el.(*ast.KeyValueExpr); isKV && src(f.fset, kv.Key) == "R" {
+								v := src(f.fset, kv.Value)
+								if v == wire || v == "br" || len(v) <= 2 { // r.reader itself, or the reader handed to a readBytesWith callback
+									limited++
+									good[kv.Value] = true
+								}
+							}
+						}
+					}
+				}
+				return true
+			})
+			ast.Inspect(fd.Body, func(n ast.Node) bool {
+				switch x := n.(type) {
+				case *ast.SelectorExpr:
+					if src(f.fset, x) == wire && !good[x] {
+						others = append(others, fd.Name.Name+": "+wire)
+					}
+				case *ast.AssignStmt:
+					for _, l := range x.Lhs {
+						if s, isS := l.(*ast.SelectorExpr); isS && s.Sel.Name == "remain" && src(f.fset, l) == counter && !goodAs[x] {
+							badRemain = append(badRemain, fd.Name.Name+": "+src(f.fset, x))
+						}
+					}
+				case *ast.IncDecStmt:
+					if src(f.fset, x.X) == counter {
+						badRemain = append(badRemain, fd.Name.Name+": "+src(f.fset, x))
+					}
+				}
+				return true
+			})
+		}
+		f.add("wireSitesThreaded", len(others) == 0 && threaded > 0 && limited == limitedOK,
+			fmt.Sprintf("message_reader.go: %d sites `r.remain, err = prim(r.reader, r.remain, …)`, %d callback sites `r.remain, err = cb(r.reader, r.remain, n)`, %d LimitedReader sites with %d matching `remain -= n - N` charges, other uses of r.reader: %v", threaded, callbacks, limited, limitedOK, others))
+		f.add("remainOnlyFromPrims", len(badRemain) == 0, fmt.Sprintf("message_reader.go: assignments to r.remain outside the discipline: %v", badRemain))
+	} else {
+		f.add("wireSitesThreaded", false, "message_reader.go not parsed")
+		f.add("remainOnlyFromPrims", false, "message_reader.go not parsed")
+	}
+
+	// ---- batch.go: the key/value callbacks touch the reader they are given only through readNewBytes / discardN / io.ReadFull
+	if batch != nil {
+		n, bad := 0, []string{}
+		ast.Inspect(batch, func(x ast.Node) bool {
+			fl, isLit := x.(*ast.FuncLit)
+			if !isLit {
+				return true
+			}
+			ps := paramNames(fl.Type)
+			if len(ps) != 3 || fl.Type.Params.List[0].Type == nil || !strings.Contains(src(f.fset, fl.Type.Params.List[0].Type), "bufio.Reader") {
+				return true
+			}
+			n++
+			okUse := map[ast.Node]bool{}
+			ast.Inspect(fl.Body, func(y ast.Node) bool {
+				if c, isC := y.(*ast.CallExpr); isC && len(c.Args) >= 1 {
+					p := selPath(c.Fun)
+					if (p == "readNewBytes" || p == "discardN" || p == "io.ReadFull") && src(f.fset, c.Args[0]) == ps[0] {
+						okUse[c.Args[0]] = true
+					}
+				}
+				return true
+			})
+			ast.Inspect(fl.Body, func(y ast.Node) bool {
+				if id, isID := y.(*ast.Ident); isID && id.Name == ps[0] && !okUse[id] {
+					bad = append(bad, src(f.fset, fl.Type))
+				}
+				return true
+			})
+			return true
+		})
+		f.add("batchCallbacksThreaded", n >= 4 && len(bad) == 0, fmt.Sprintf("batch.go: %d read callbacks; uses of their reader outside readNewBytes/discardN/io.ReadFull: %v", n, bad))
+	} else {
+		f.add("batchCallbacksThreaded", false, "batch.go not parsed")
+	}
+
 	// ---- Batch.Read value callback: remaining = size − bytes read; discarded = value length − bytes read
 	if fd := findFunc(batch, "Batch", "Read"); fd != nil {
 		ok, why := false, "no callback ending in discardN(r, size-<read>, <n>-<read>) after io.ReadFull"
